@@ -164,7 +164,7 @@ def candidates(text: str) -> Set[str]:
     """Every string a line-splitting variant could hand to the importer: the stripped line, every
     suffix starting after a white-space character, and the last character."""
     out: Set[str] = set()
-    for raw in text.splitlines():
+    for raw in text.splitlines() + text.split('\n'):      # both ways of cutting the text into lines
         line = raw.strip()
         if not line:
             continue
